@@ -53,6 +53,7 @@ RestartEq(nd) == /\ ~nd.rs.failed
                  /\ nd.rs.mark = nd.pre.mark
                  /\ \A d \in 1..K.maxd : \A f \in ChanFields : nd.rs.chans[d][f] = nd.pre.chans[d][f]
                  /\ nd.rs.pst = nd.pre.pst /\ nd.rs.lis = nd.pre.lis
+                 /\ nd.rs.feq
 C15r == Nodes[node + 1].pre.dead \/ RestartEq(Nodes[node + 1])
 
 ---------------------------------------------------------------------------
